@@ -95,6 +95,8 @@ def run_obligations(c, obligs, tag):
     recs = []
     for rc, out, outp in res:
         if rc != 0 or not os.path.exists(outp):
+            if c.crash_verdict("SchemaWalk", rc, outp):
+                continue
             raise Broken("obligation shard failed rc=%s: %s" % (rc, out[-1500:]))
         for line in open(outp):
             recs.append(json.loads(line))
